@@ -219,7 +219,7 @@ def bounded(run):
     from oracles import iso
     from oracles.o01_stereo import stereo_isomorphic
     quick = run.tier == 'quick'
-    max_nodes, full_limit, trials = (6, 5, 5) if quick else (7, 6, 6)
+    max_nodes, full_limit, trials = (6, 5, 6) if quick else (7, 6, 7)
     k_seeded = 20
     n_corpus = 300 if quick else None
     run.assume('oracles/iso.py: exhaustive attribute-aware isomorphism / automorphism enumerator is the judge of "same structure" '
